@@ -186,6 +186,25 @@ CHECKS.update({
         'DESIGN.md section 4 C20'),
 })
 
+CHECKS.update({
+    'C11': (
+        'Coq proof (stable descending sort head = earliest most specific match; registered-first dedupe; binding state machine invariants by induction over op histories) + vm_compute correspondence',
+        'Theorems C11_* prove, for any check function and any registration, that the class chosen by the model of '
+        'registry.guess_convention matches, that no matching class is more specific, that every class listed before it is '
+        'strictly less specific, that nothing is chosen iff nothing matches, that a manually registered class is never beaten '
+        'on a tie by an entry-point class, that SHOC markers exclude the generic CF classes and that UGrid needs the marker and '
+        'a 2-D mesh variable; and for the binding state machine (access / construct+bind / copy), by induction over all '
+        'histories, that a binding once made stays, later accesses return that object and change nothing, a second '
+        'attachment is refused, a copy is fresh and independent and no object is shared by two datasets.  Per run: datasets of '
+        'every convention and their near misses x registration orders of synthetic conventions against the model and against '
+        '"most specific, earliest listed" computed on the implementation; every op sequence up to length 3 (thorough 4) plus '
+        'random longer ones on detectable and undetectable datasets, object identities canonicalised by order of creation.',
+        'Trusted: Coq kernel; model Registry.v.  The feature extraction (which CF markers / attributes a dataset carries) is a '
+        'python restatement of the documented detection rules; importlib.metadata entry-point order is read at run time and '
+        'passed to the model; xarray\'s per-object accessor cache is not modelled.',
+        'DESIGN.md section 4 C11'),
+})
+
 NOT_YET = 'check not built yet in this session (work in progress; the design in DESIGN.md section 4 applies)'
 
 
